@@ -104,6 +104,10 @@ type scn struct {
 	offGate  string        // the first OfflineCallback blocks until this gate opens
 	envSlow  bool          // a timeout expired although the peer of that attempt answers promptly: the machine was too slow
 	discSent bool
+	msgGate  string        // the first MessageCallback blocks until this gate opens (the application is busy with a message)
+	msgN     int
+	apiBound time.Duration // watchdog of one command call (0: waitBound)
+	canRet   []bool        // the future of command n was already cancelled when the call returned
 
 	svc     *client.Service
 	cfg     *client.Config
@@ -168,6 +172,16 @@ func (s *scn) waitGate(name string) {
 	select {
 	case <-s.gate(name):
 	case <-time.After(waitBound + 4*time.Second):
+	}
+}
+
+// gateOpen: has the gate been released (never blocks)
+func (s *scn) gateOpen(name string) bool {
+	select {
+	case <-s.gate(name):
+		return true
+	default:
+		return false
 	}
 }
 
@@ -445,6 +459,20 @@ func (s *scn) setup() {
 			s.waitGate(s.errGate)
 		}
 	}
+	if s.msgGate != "" {
+		sv.MessageCallback = func(*packet.Message) error {
+			s.mu.Lock()
+			s.msgN++
+			first := s.msgN == 1
+			s.mu.Unlock()
+			s.bump("msgcb")
+			if first {
+				s.waitGate(s.msgGate)
+			}
+			s.bump("msgcbret")
+			return nil
+		}
+	}
 	cfg := client.NewConfig("mem://x")
 	cfg.Dialer = &recDialer{s}
 	cfg.KeepAlive = "0s"
@@ -570,6 +598,11 @@ func (s *scn) cmd(b body) int {
 	s.futSt = append(s.futSt, "pending")
 	s.bodies = append(s.bodies, b)
 	s.callDur = append(s.callDur, 0)
+	s.canRet = append(s.canRet, false)
+	bound := s.apiBound
+	if bound == 0 {
+		bound = waitBound
+	}
 	s.mu.Unlock()
 	s.ev("cmdcall %d %s", n, b.text())
 	t0 := time.Now()
@@ -602,12 +635,12 @@ func (s *scn) cmd(b body) int {
 	}()
 	select {
 	case f = <-ret:
-	case <-time.After(waitBound):
+	case <-time.After(bound):
 		s.mu.Lock()
 		s.fails = append(s.fails, fmt.Sprintf("api-call-%d-did-not-return", n))
 		s.wedged = true
 		s.mu.Unlock()
-		s.direct("queue", fmt.Sprintf("call-%d-blocked-longer-than-QueueTimeout(%v)", n, s.qtmo))
+		s.direct("queue", fmt.Sprintf("call-%d-did-not-return-within-%v:blocked-longer-than-QueueTimeout(%v)", n, bound, s.qtmo))
 		return n
 	}
 	el := time.Since(t0)
@@ -615,6 +648,9 @@ func (s *scn) cmd(b body) int {
 	s.callDur[n] = el
 	s.mu.Unlock()
 	cancelledAtReturn := f.Wait(2*time.Millisecond) == future.ErrCanceled
+	s.mu.Lock()
+	s.canRet[n] = cancelledAtReturn
+	s.mu.Unlock()
 	if el >= s.qtmo && cancelledAtReturn {
 		s.ev("qtimeout %d", n)
 	} else {
@@ -672,7 +708,9 @@ func (s *scn) run() {
 	}
 	// final quiescence: Stop(true) (false if not running), then every future ever returned must be resolved
 	s.stop(true)
-	s.waitFuts(s.nfut)
+	if !s.isWedged() {
+		s.waitFuts(s.nfut)
+	}
 	s.mu.Lock()
 	for _, old := range s.conns {
 		if !old.isClosed() {
